@@ -39,7 +39,8 @@ LEVEL_TEXT = ("Exploration: thousands of (tree, motion) pairs over all shape cla
               " Scales down to 1e-12; radial distances of trees whose root is not typed as soma, in both poses (both must be rejected or both agree)."
               " Twins measured from inside a traversal of the original; Sholl objects read after the neuron was moved in place."
               " Twins under custom column names; a dense chain before / after renumbering and scaling."
-              " Front ends used through a caller that overwrites what it is handed.")
+              " Front ends used through a caller that overwrites what it is handed."
+              " Sholl given the file name of the moved neuron; bundles under other ambient states.")
 LEVEL_NOTE = ("Volume terms the library itself samples (accuracy >= 5 on nodes with two or more "
               "children, accuracy 10) are stochastic by design and not compared. Tolerances follow "
               "from float32 rounding of the moved coordinates (eps_pos = 2e-7*(1+max|coord|)): "
